@@ -1255,7 +1255,10 @@ func (v *FnVC) enterLoop(fr *frame, li *loopInfo, b *ssa.BasicBlock, st *State, 
 			if ci, ok := ins.(ssa.CallInstruction); ok {
 				if cal := ci.Common().StaticCallee(); cal != nil {
 					for _, g := range []string{"called#", "errSeen#"} {
-						st.ghost[g+FuncKey(cal)] = v.sc.Fresh("ghost", SBool)
+						old := st.ghostGet(g + FuncKey(cal))
+						n := v.sc.Fresh("ghost", SBool)
+						v.sc.Assert(Implies(old, n)) // observers are monotone: once true, they stay true
+						st.ghost[g+FuncKey(cal)] = n
 					}
 				}
 			}
